@@ -579,7 +579,7 @@ def step_order_rows(g: G, sch: Sch, final=False):
         cols = _total_order_cols(g, sch)
         if cols is None:
             return None
-        limit = g.pick([None, 1, 2, 3, 5]) if final else g.pick([1, 2, 3, 5, None])
+        limit = g.pick([None, 0, 1, 2, 3, 5]) if final else g.pick([0, 1, 2, 3, 5, None])
     rev = g.subset(cols, lo=0, hi=len(cols)) if g.boolean(0.5) else []
     return {"op": "order_rows", "cols": cols, "reverse": rev, "limit": limit}
 
